@@ -11,6 +11,8 @@ package qbft
 //@ pure pbv1.QBFTConsensusMsg.GetMsg pbv1.QBFTConsensusMsg.GetJustification pbv1.QBFTConsensusMsg.GetValues
 //@ pure core.DutyFromProto Consensus.gaterFunc
 //@ axiom cloneFresh: all(m, *pbv1.QBFTMsg, proto.Clone(m).(*pbv1.QBFTMsg) != m && proto.Clone(m).(*pbv1.QBFTMsg) != nil)
+// generated protobuf getter: on a non-nil message GetSignature() is the Signature field (so code may read either)
+//@ axiom getSignatureIsField: all(m, *pbv1.QBFTMsg, m != nil ==> m.GetSignature() == m.Signature)
 //@ pure proto.Clone k1util.Recover k1util.Sign PublicKey.IsEqual k1.PublicKey.IsEqual secp256k1.PublicKey.IsEqual anypb.Any.UnmarshalNew
 
 //@ spec func signedHash(msg *pbv1.QBFTMsg) [32]byte = res(0, hashProto(proto.Clone(msg).(*pbv1.QBFTMsg)))
